@@ -69,8 +69,16 @@ func genNest(thorough bool) Gen {
 				sh = fmt.Sprintf("nest/%s/fall", shape)
 			}
 			yield(&Prog{Family: "F-nest", Shape: sh, Mk: func() *Block {
-				return nestProgram(ks, cs, exit, exLv, exPos, at, inner, outer)
+				return nestProgram(ks, cs, exit, exLv, exPos, at, inner, outer, false)
 			}})
+			// the same nest as the very first thing in a function without parameters or locals (only
+			// for nests whose outermost block has no hidden loop registers in front of its local, and
+			// not with the vararg-dependent routes)
+			if (ks[0] == "do" || ks[0] == "while" || ks[0] == "repeat" || ks[0] == "if" || ks[0] == "else") && exit != "yield" && exit != "yield-abandon" {
+				yield(&Prog{Family: "F-nest", Shape: "bare/" + sh, Mk: func() *Block {
+					return nestProgram(ks, cs, exit, exLv, exPos, at, inner, outer, true)
+				}})
+			}
 		}
 		emitAll = func() {
 			one("", 0, "", 1)
@@ -114,7 +122,9 @@ func genNest(thorough bool) Gen {
 	}
 }
 
-func nestProgram(ks, cs []string, exit string, exLv int, exPos string, at int, inner, outer int) *Block {
+// bare: the site function has no parameters and no locals of its own — the counters are upvalues —
+// so that the outermost block's first local sits in register 0.
+func nestProgram(ks, cs []string, exit string, exLv int, exPos string, at int, inner, outer int, bare bool) *Block {
 	depth := len(ks)
 	push := func(e Expr) Stat {
 		return Assign1(Index(Name("fns"), Bin("+", Un("#", Name("fns")), Num(1))), e)
@@ -211,8 +221,14 @@ func nestProgram(ks, cs []string, exit string, exLv int, exPos string, at int, i
 		case "do":
 			return []Stat{Do(body...)}
 		case "while":
+			if bare {
+				return []Stat{Assign1(Name(iv(lv)), Num(0)), While(Bin("<", Name(iv(lv)), Num(2)), body...)}
+			}
 			return []Stat{Do(Local1(iv(lv), Num(0)), While(Bin("<", Name(iv(lv)), Num(2)), body...))} // counter in its own block: a goto over it would otherwise enter its scope
 		case "repeat":
+			if bare {
+				return []Stat{Assign1(Name(iv(lv)), Num(0)), Repeat(Name(fmt.Sprintf("done%d", lv)), body...)}
+			}
 			return []Stat{Do(Local1(iv(lv), Num(0)), Repeat(Name(fmt.Sprintf("done%d", lv)), body...))}
 		case "numfor":
 			return []Stat{NumFor(iv(lv), Num(1), Num(2), nil, body...)}
@@ -230,9 +246,18 @@ func nestProgram(ks, cs []string, exit string, exLv int, exPos string, at int, i
 		Local1("tmp", TableE(Pos1(Name("x")), Pos1(Name("y")))),
 		Return(Bin("+", Bin("+", Bin("+", Name("x"), Name("y")), Bin("+", Name("z"), Name("u"))), Bin("+", Name("v"), Name("w"))))))
 	site := []Stat{Local1("n", Num(0))}
+	if bare {
+		site = nil
+	}
 	site = append(site, build(1)...)
 	site = append(site, Label("out"), Local(names("o1", "o2", "o3", "o4"), Str("over1"), Str("over2"), Str("over3"), Str("over4")), Emit(Str("after"), Name("o1"), Name("n")), Return(Str("done"), Name("n")))
-	st := []Stat{Local1("fns", TableE()), Local1("nilv", Nil()), reuse, LocalFunc("site", Func(names("p"), true, site...))}
+	st := []Stat{Local1("fns", TableE()), Local1("nilv", Nil()), reuse}
+	if bare {
+		// counters live outside the site function
+		st = append(st, Local(names("n", "i1", "i2", "i3"), Num(0), Num(0), Num(0), Num(0)), LocalFunc("site", Func(nil, false, site...)))
+	} else {
+		st = append(st, LocalFunc("site", Func(names("p"), true, site...)))
+	}
 	readAll := func(tag string) Stat {
 		return NumFor("i", Num(1), Un("#", Name("fns")), Num(2), Emit(Str(tag), Name("i"), Call(Index(Name("fns"), Name("i")))))
 	}
